@@ -404,6 +404,24 @@ def spawn_env_rule(prog, chk):
         chk.ok("R9.4", "export-loop", "Command::env in the iter_exported loop is control dependent on value().is_set()", function=CSC)
     else:
         chk.fail("R9.4", CSC, "export-not-guarded", "no Command::env call inside the iter_exported loop guarded by is_set()")
+    # arrays have no environment representation: the export loop must not pass one off as a scalar (its first element)
+    isarr = call_sites(b, {SVAL + "::is_array"})
+    arr_ok = False
+    for ebb, et in envs:
+        for h, blks in loops.items():
+            if ebb in blks and c.dominates(it[0][0], h):
+                for g, _ in isarr:
+                    if g in blks and c.dominates(g, ebb):
+                        sw = _switch_after(b, c, g)
+                        if sw is not None and ebb not in c.reachable_from(b.blocks[sw].term.otherwise, avoid=[h]):
+                            arr_ok = True
+    if arr_ok:
+        chk.ok("R9.4", "export-loop-skips-arrays", "Command::env in the iter_exported loop is not reached for array values", function=CSC)
+    else:
+        chk.fail("R9.4", CSC, "exported-array-passed-as-scalar",
+                 "the export loop of compose_std_command hands array variables to Command::env too (no is_array() test on the way): `declare -ax a=(1 2); env` shows a=1 "
+                 "in the child (bash: arrays are not exported)")
+    declare_on_readonly_rule(prog, chk)
 
 
 def _switch_after(b, c, bb):
@@ -444,3 +462,96 @@ def run(prog, chk):
         if not esc:
             chk.ok("R9.3", "enter/leave@" + owner(b.name), "leave_function post-dominates enter_function", function=owner(b.name))
     spawn_env_rule(prog, chk)
+
+
+SVARIABLE = "brush_core::variables::ShellVariable"
+ATTR_MUTATORS = ("convert_to_associative_array", "convert_to_indexed_array", "treat_as_integer", "unset_treat_as_integer", "treat_as_nameref",
+                 "unset_treat_as_nameref", "set_update_transform", "export", "unexport", "enable_trace", "disable_trace", "set_readonly", "unset_readonly")
+
+
+def declare_on_readonly_rule(prog, chk):
+    """R9.6: "a readonly variable's value and attributes cannot be changed … by any construct". `declare -i v=2` (local, readonly,
+    export, typeset alike) on an existing readonly variable must leave it untouched: the value is refused, so the attributes named in the
+    same declaration must not be applied either. In DeclareCommand::process_declaration, on the existing-variable path, every attribute
+    change that precedes the assignment is reached only through the readonly test of that variable, or through the `no value given` edge
+    (a bare `declare -i v` on a readonly variable is allowed, as in bash)."""
+    from dataflow import flow_back
+    chk.rule("R9.6", "declare with a value on an existing readonly variable: the readonly test precedes every attribute change and conversion "
+                     "(nothing is half applied)")
+    PD = "brush_builtins::declare::DeclareCommand::process_declaration"
+    b = prog.impl_body(PD)
+    if not chk.anchor("R9.6", PD, b):
+        return
+    c = cfg_of(b)
+    d = defs_of(b)
+    looks = [(bb, t) for bb, t in b.calls() if (t.best_callee() or "").endswith("ShellEnvironment::get_mut_using_policy")]
+    if not looks:
+        chk.fail("R9.6", PD, "lookup-missing", "process_declaration no longer looks the variable up through get_mut_using_policy")
+        return
+    lb, lt = looks[0]
+    sw = b.blocks[lt.target].term
+    some = [tg for v, tg in sw.targets if v == 1] if sw.kind == "switch" else []
+    if not some:
+        chk.fail("R9.6", PD, "lookup-shape", "no Some/None switch after the lookup")
+        return
+    region = c.reachable_from(some[0], avoid=[sw.otherwise] if sw.otherwise not in some else [])
+
+    def on_var(op):
+        return any(any(v.endswith("get_mut_using_policy") for v in f.via) for f in flow_back(b, d, op, all_args=False))
+
+    muts, assigns, guards = [], [], []
+    for bb, t in b.calls():
+        if bb not in region or not t.args:
+            continue
+        cal = t.best_callee() or t.callee or ""
+        last = cal.rsplit("::", 1)[-1]
+        if cal.startswith(SVARIABLE + "::") and last in ATTR_MUTATORS and on_var(t.args[0]):
+            muts.append((bb, last))
+        elif cal.endswith("DeclareCommand::apply_attributes_before_update") and len(t.args) > 1 and on_var(t.args[1]):
+            muts.append((bb, "apply_attributes_before_update"))
+        elif cal == SVARIABLE + "::assign" and on_var(t.args[0]):
+            assigns.append((bb, t))
+        elif cal == SVARIABLE + "::is_readonly" and on_var(t.args[0]):
+            guards.append(bb)
+    chk.floor("R9.6", "attribute changes on the existing variable before its assignment", len([m for m in muts if any(a in c.reachable_from(m[0]) for a, _ in assigns)]), 2)
+    if not assigns:
+        chk.fail("R9.6", PD, "assign-missing", "no ShellVariable::assign on the looked-up variable")
+        return
+    pre = [m for m in muts if any(a in c.reachable_from(m[0]) for a, _ in assigns)]
+    if not guards:
+        chk.fail("R9.6", PD, "declaration-half-applied-on-readonly",
+                 "process_declaration changes attributes of an existing variable (%s …) before ShellVariable::assign rejects a readonly target, and never asks is_readonly "
+                 "itself: `readonly v=1; declare -i v=2` fails but leaves v with -i (likewise -l -u -x -n; `declare -a v=(3)` converts it to an array)"
+                 % ", ".join(sorted({m[1] for m in pre})[:3]))
+        return
+    # the readonly edge leaves: from the true edge of the test neither a mutator nor the assignment is reachable
+    g = guards[0]
+    gs = b.blocks[b.blocks[g].term.target].term if b.blocks[g].term.target is not None else None
+    t_edge = gs.otherwise if gs is not None and gs.kind == "switch" else None
+    after_true = c.reachable_from(t_edge) if t_edge is not None else set()
+    leak = [m for m in pre if m[0] in after_true] + [("assign",) for a, _ in assigns if a in after_true]
+    if t_edge is None or leak:
+        chk.fail("R9.6", PD, "readonly-edge-continues", "after finding the variable readonly process_declaration still reaches %s" % (leak[:1] or "?"))
+        return
+    # paths that avoid the test are the `no value given` paths: false edges of is_some() on the declared value
+    vloc = None
+    for a, at in assigns:
+        for f in flow_back(b, d, at.args[1], all_args=False):
+            if f.local is not None and vloc is None and f.kind in ("call", "arg", "agg", "op", "unknown"):
+                vloc = f.local
+    novalue = []
+    for bb, t in b.calls():
+        if (t.best_callee() or t.callee or "").endswith("Option::is_some") and t.target is not None and b.blocks[t.target].term.kind == "switch":
+            fe = [tg for v, tg in b.blocks[t.target].term.targets if v == 0]
+            if fe and c.dominates(some[0], bb) and not c.dominates(g, bb) and bb != g:
+                novalue.append(fe[0])
+    bad = []
+    for m, nm in pre:
+        w = c.escapes(some[0], [g], [m], after=False, avoid=novalue)
+        if w is not None:
+            bad.append(nm)
+    if bad:
+        chk.fail("R9.6", PD, "attribute-change-before-readonly-test",
+                 "process_declaration reaches %s on a path that carries a value but has not tested is_readonly: the declaration is half applied to a readonly variable" % bad[0])
+    else:
+        chk.ok("R9.6", "readonly-test-precedes-attribute-changes", "%d attribute changes / conversions are reached only past the readonly test or on the no-value edge" % len(pre), function=PD)
